@@ -356,6 +356,15 @@ def run(cs, tier, run_index):
         hot.append((name, draw_params(hs, name), SEED_POOL[hs.draw(len(SEED_POOL))]))
     client_ops = [draw_client_ops(cs.s(f"client:{i}"), ops_per_client, hot) for i in range(n_clients)]
     adv_ops = draw_adversary_ops(cs.s("adversary"), adv_ops_n)
+    # own stream: some ensembles are an orthonormal basis with an ALMOST uniform prior (average state close to, not
+    # equal to, the maximally mixed state - where a shortcut for "symmetric" ensembles decides by a tolerance)
+    for i, ops_i in enumerate(client_ops):
+        ns = cs.s(f"pgm:near:{i}")
+        for op in ops_i:
+            if op["op"] == "pgm" and op["d"] >= 2 and ns.draw(3) == 0:
+                op["near_basis"] = [1e-3, 3e-4, 1e-4, 1e-5][ns.draw(4)]
+                op["pure"] = True
+                res.probe("pgm_near_uniform_basis")
     res.info["config"] = {"clients": n_clients, "switch_permille": switch_permille, "adversary_ops": adv_ops_n, "collide_permille": collide}
 
     ent = Entropy(cs.s("entropy"), log=None, collide_permille=collide, res=res)
@@ -374,13 +383,16 @@ def run(cs, tier, run_index):
         for key, (name, params, seed, form) in triples.items():
             # every reference in a pristine library: nothing an earlier reference call left behind is visible
             with pristine_library_state():
-                ref[key] = call_gen(R, name, params, seed, form)
+                ref[key] = copy.deepcopy(call_gen(R, name, params, seed, form))
             log.add("ref", key, outcome_digest(ref[key]))
 
         # ---- clients ---------------------------------------------------------
         records = [[] for _ in range(n_clients)]  # per client: (opindex, op, outcome parts)
         global_writes = []  # global event sequence numbers of adversary writes
         seq = [0]
+
+        # own streams: which returned objects the client goes on to edit in place
+        scrib = [[cs.s(f"scribble:{i}").draw(5) == 0 for _ in client_ops[i]] for i in range(n_clients)]
 
         def make_client(i):
             live = {}
@@ -389,7 +401,9 @@ def run(cs, tier, run_index):
                 for k, op in enumerate(client_ops[i]):
                     seq[0] += 1
                     start = seq[0]
-                    out = exec_op(R, pgm_f, pbm_f, measure_f, op, live=live)
+                    out = exec_op(R, pgm_f, pbm_f, measure_f, op, live=live, scribble_after=scrib[i][k])
+                    if out.get("scribbled"):
+                        res.probe("caller_edits_returned_object")
                     seq[0] += 1
                     records[i].append((k, op, out, start, seq[0]))
                     yield_fn()
@@ -521,6 +535,8 @@ def expand_gen_calls(op):
     if op["op"] == "gen":
         return [(op["name"], op["params"], op["seed"], op.get("seed_form", "int"))]
     if op["op"] == "pgm":
+        if op.get("near_basis"):
+            return [("random_unitary", {"dim": op["d"], "is_real": False}, op["seed"], "int")]
         if op["pure"]:
             return [("random_states", {"n": op["n"], "d": op["d"]}, op["seed"], "int")]
         return [("random_density_matrix", {"dim": op["d"], "is_real": False, "k_param": None, "distance_metric": "haar"}, (op["seed"] + j) % (2**32), "int") for j in range(op["n"])]
@@ -536,26 +552,53 @@ def expand_gen_calls(op):
     return []
 
 
-def exec_op(R, pgm_f, pbm_f, measure_f, op, live=None):
+def scribble(obj):
+    """What a caller does with an array it was handed: work on it in place (`U += U.conj().T`, `basis[0] *= 0`).
+    The object is the caller's; nothing the library returns later may depend on it."""
+    if isinstance(obj, np.ndarray):
+        try:
+            obj *= 0
+            obj += 3
+        except (ValueError, TypeError):
+            pass  # read-only result or a dtype that cannot hold it: nothing to write
+    elif isinstance(obj, (list, tuple)):
+        for x in obj:
+            scribble(x)
+
+
+def exec_op(R, pgm_f, pbm_f, measure_f, op, live=None, scribble_after=False):
     """Runs inside a client thread (traced).  Only library calls, no oracles."""
     out = {"calls": []}
     for name, params, seed, form in expand_gen_calls(op):
-        out["calls"].append((name, params, seed, call_gen(R, name, params, seed, form, live=live), form))
+        got = call_gen(R, name, params, seed, form, live=live)
+        if scribble_after and op["op"] == "gen" and got[0] == "ok":
+            kept = ("ok", copy.deepcopy(got[1]))  # what the oracles judge: the object as it was returned
+            scribble(got[1])
+            got = kept
+            out["scribbled"] = True
+        out["calls"].append((name, params, seed, got, form))
     if op["op"] == "pgm":
         objs = [c[3] for c in out["calls"]]
         if any(o[0] != "ok" for o in objs):
             return out
         states = list(objs[0][1]) if op["pure"] else [o[1] for o in objs]
+        if op.get("near_basis"):
+            u = objs[0][1]
+            states = [u[:, j:j + 1].copy() for j in range(op["d"])]
         form = op.get("form", 0)
         if op["pure"] and form == 1:  # 1-D vectors
             states = [np.asarray(v).reshape(-1) for v in states]
         elif op["pure"] and form == 2:  # kets and density matrices mixed in one list
             states = [v if j % 2 == 0 else v @ v.conj().T for j, v in enumerate(states)]
         wts = [float(x) for x in op["weights"]]
-        if op.get("tiny_prior") and not op["uniform_default"]:
+        if op.get("near_basis"):
+            # an orthonormal basis with an almost uniform prior: the average state is within `near_basis` of the
+            # maximally mixed state without being equal to it
+            wts = [1.0 + op["near_basis"] * (((j * 7 + op["seed"]) % 5) - 2) for j in range(op["d"])]
+        if op.get("tiny_prior") and not op["uniform_default"] and not op.get("near_basis"):
             wts[-1] = op["tiny_prior"] * sum(wts[:-1])
         tot = float(sum(wts))
-        probs = None if op["uniform_default"] else [w / tot for w in wts]
+        probs = None if (op["uniform_default"] and not op.get("near_basis")) else [w / tot for w in wts]
         if probs is not None and op.get("probs_array"):
             probs = np.array(probs)
         out["states"], out["probs"] = states, probs
